@@ -406,6 +406,9 @@ def collect_cc(prop, tier):
         # C12 runs the full configuration of the tier; C08 (WellFormed) always the small one; C14 the universes in which data move
         extra_cov = dict(extra_cov, operational_model=egop.run_tier(tier if prop == "C12" else "quick", tables, prop,
                                                                     only=["U1", "U4", "U6", "U8"] if prop == "C14" and tier == "quick" else None))
+    if prop in ("C04", "C05"):
+        import egop
+        extra_cov = dict(extra_cov, operational_matcher=egop.run_matches(tier, tables, prop))
     others = {}
     for f in findings:
         if f["prop"] != prop:
